@@ -223,6 +223,8 @@ def crosscheck_reference(target: bytes, connect: bool, ref: Optional[Dict[str, A
 
 def run_case(case: Dict[str, Any]) -> Dict[str, Any]:
     rng = random.Random('c14:%s:%s' % (case['seed'], case['i']))
+    if case['mode'] == 'port-wrap':
+        return run_port_wrap(case, rng)
     target, connect, meta = gen_target(rng, case)
     viol: List[Dict[str, Any]] = []
     obs: Dict[str, int] = {}
@@ -412,6 +414,90 @@ def run_case(case: Dict[str, Any]) -> Dict[str, Any]:
             'sets': {'classes': {cls}}, 'inconclusive': inconclusive, 'sample': sample}
 
 
+def run_port_wrap(case: Dict[str, Any], rng: random.Random) -> Dict[str, Any]:
+    """A port number beyond 65535 names no port at all: the target must be rejected, and in particular it must not be
+    routed to (port mod 65536).  A listener waits exactly there, on the address the host names."""
+    connect = case['form'] == 'authority'
+    hk = case['host']
+    cls = '%s|%s|port-wrap' % (case['form'], hk)
+    viol: List[Dict[str, Any]] = []
+    obs: Dict[str, int] = {'port_wrap': 1}
+    inconclusive = None
+    sample: Dict[str, Any] = {}
+    flags = make_flags([], cache_key='c14')
+    shim.S.reset()
+    rig = StepRig(flags, 'local')
+    excl = contextlib.ExitStack()
+    try:
+        mapping: Dict[str, str] = {}
+        if hk == 'ipv4':
+            ip = '127.%d.%d.%d' % (rng.randint(0, 250), rng.randint(0, 250), rng.randint(2, 250))
+            host = ip.encode()
+        elif hk == 'ipv6':
+            if not excl.enter_context(env.exclusive('v6-loopback')):
+                raise LockTimeout()
+            ip = '::1'
+            host = b'[' + rng.choice(V6).encode() + b']'
+        elif hk == 'localhost':
+            ip = '127.0.0.1'
+            host = b'localhost'
+        else:
+            ip = '127.%d.%d.%d' % (rng.randint(0, 250), rng.randint(0, 250), rng.randint(2, 250))
+            host = (G.token(rng, 1, 10).lower().strip(b'-_') or b'a') + b'.test'
+            mapping[host.decode()] = ip
+        origin = rig.add_origin(ip, 0)
+        port = origin.port + 65536 * case['k']
+        target = (host + b':%d' % port) if connect else (b'http://' + host + b':%d' % port + b'/wrapped')
+        sample = {'target': target, 'listener': '%s:%d' % (ip, origin.port)}
+        lookups = resolver.reset(mapping)
+        if hk == 'localhost':
+            resolver.passthrough.add('localhost')
+        alog = audit.start()
+        client = rig.add_client('unix')
+        if connect:
+            client.send(b'CONNECT ' + target + b' HTTP/1.1\r\nHost: ' + target + b'\r\n\r\n')
+        else:
+            client.send(b'GET ' + target + b' HTTP/1.1\r\nHost: ' + host + b'\r\n\r\n')
+        box: Dict[str, Any] = {}
+
+        def done() -> bool:
+            if 'oc' not in box:
+                pc = origin.accept()
+                if pc is not None:
+                    box['oc'] = pc
+            return client.ended or b'\r\n\r\n' in client.rx or 'oc' in box
+        rig.until(done, [client], idle_timeout=0.3)
+        rig.settle([client], quiet=4)
+        done()
+        audit.stop()
+        connects = [a for (ev, a) in alog if ev == 'socket.connect']
+        sample['connects'] = [repr(c) for c in connects]
+        sample['lookups'] = [repr(l) for l in lookups]
+        obs['connect_events'] = len(connects)
+        msgs, err, _ = h11util.parse_responses(bytes(client.rx), [b'CONNECT' if connect else b'GET'], eof=client.eof)
+        code = msgs[0]['code'] if msgs else None
+        wrapped = [c for c in connects if isinstance(c, tuple) and len(c) >= 2 and c[1] == origin.port]
+        if 'oc' in box or wrapped:
+            viol.append({'key': 'live|%s|out-of-range-port-routed-to-port-mod-65536' % cls,
+                         'detail': {'target': target, 'listener': sample['listener'], 'connects': sample['connects'],
+                                    'lookups': sample['lookups'], 'client': bytes(client.rx[:120])}})
+        elif not ((code is not None and code >= 400) or (client.ended and not client.rx)):
+            viol.append({'key': 'live|%s|damaged-target-no-rejection' % cls, 'detail': {'target': target, 'client': bytes(client.rx[:120])}})
+        else:
+            obs['port_wrap_rejected'] = 1
+            obs['rejected'] = 1
+    except LockTimeout:
+        inconclusive = 'v6-loopback-lock-timeout'
+    except LoopDied as e:
+        viol.append({'key': 'live|%s|loop-died:%s' % (cls, e.where()), 'detail': {'tb': e.tb[-800:], 'sample': sample}})
+    finally:
+        audit.stop()
+        rig.close()
+        excl.close()
+    return {'viol': viol, 'nontrivial': True, 'sig': '%s/%s/%s/wrap' % (case['form'], hk, case['k']), 'obs': obs,
+            'sets': {'classes': {cls}}, 'inconclusive': inconclusive, 'sample': sample}
+
+
 def _is_ip(s: Any) -> bool:
     try:
         ipaddress.ip_address(s)
@@ -464,11 +550,17 @@ def cases(tier: str, seed: int):
             for h in ('ldh', 'ipv4', 'ipv6'):
                 i += 1
                 yield {'seed': seed, 'i': i, 'mode': 'live', 'form': 'absolute', 'host': h, 'port': 'rand', 'userinfo': True, 'path': path}
+        for form in ('absolute', 'authority'):
+            for h in ('ldh', 'ipv4', 'ipv6', 'localhost'):
+                for k in (1, 2, 65536):
+                    i += 1
+                    yield {'seed': seed, 'i': i, 'mode': 'port-wrap', 'form': form, 'host': h, 'port': 'wrap', 'k': k}
 
 
 def floors(tier: str) -> Dict[str, int]:
     return {'direct_valid': 1000, 'direct_damaged': 20, 'live_valid': 100, 'connect_events': 60, 'lookup_events': 40,
-            'origin_path_checked': 20, 'tunnel_established': 10, 'distinct:classes': 150}
+            'origin_path_checked': 20, 'tunnel_established': 10, 'distinct:classes': 150,
+            'port_wrap': 40}
 
 
 if __name__ == '__main__':
